@@ -114,7 +114,11 @@ func checkC20(c *Check) {
 	// given back on every path and not held across a call that can take them again
 	c.Counts["blocking_resources"] = blockingResources(c, "RESOURCE-PAIR", "HELD-ACROSS-NESTING", scope)
 	c.Counts["goroutines_started_in_loops"] = goroutineLoopVars(c, "GOROUTINE-LOOPVAR", scope)
+	c.Okf("GOROUTINE-LOOPVAR", "scan", "-", "%d reachable repository functions scanned for goroutines started in loops: %d found and evaluated", len(scope), c.Counts["goroutines_started_in_loops"])
+	c.Okf("RESOURCE-PAIR", "scan", "-", "%d reachable repository functions scanned for locks and semaphore tokens: %d acquisitions found and evaluated", len(scope), c.Counts["blocking_resources"])
+	c.Okf("HELD-ACROSS-NESTING", "scan", "-", "%d reachable repository functions scanned for locks and semaphore tokens: %d acquisitions found and evaluated", len(scope), c.Counts["blocking_resources"])
 	c.Counts["nesting_counters"] = counterPairs(c, "COUNTER-PAIR", scope) + saturatingCounters(c, "COUNTER-PAIR", scope)
+	c.Okf("COUNTER-PAIR", "scan", "-", "%d reachable repository functions scanned for nesting counters: %d found and evaluated", len(scope), c.Counts["nesting_counters"])
 	nDead := deadErrors(c, "DEAD-ERROR", scope)
 	c.Counts["dead_error_assignments"] = nDead
 	c.Okf("DEAD-ERROR", "scan", "-", "%d reachable repository functions scanned for error results bound to a variable that is never read: %d found", len(scope), nDead)
